@@ -1022,8 +1022,8 @@ def check_symnco(ctx, only=None):
             ctx.count("c16.symnco.loss=reference(model.py axis labels)")
         if matches(y):
             ctx.count("c16.symnco.loss=reference(losses.py docstrings)")
-        if okay and ((m == x) != matches(x) or (m == y) != matches(y)):
-            ctx.disagreement("SymNCO: model and code disagree on which reference the loss equals", wit)
+        if okay and ((m == x and not matches(x)) or (m == y and not matches(y))):
+            ctx.disagreement("SymNCO: the model equals a reference exactly but the code does not match it", wit)
         if not matches(x) and not matches(y):
             mixed = okay and S > 1 and A > 1 and S != A
             ctx.violation("symnco-regroup-mixed-groups" if mixed else "loss-not-reference-surrogate",
